@@ -4,6 +4,7 @@
 #include "nmtools/platform.hpp"
 #include "nmtools/dtypes.hpp"
 #include "nmtools/utl/common.hpp"
+#include "nmtools/verif.hpp"
 #include "nmtools/meta/bits/transform/common_type.hpp"
 
 // poor man's array,
@@ -42,12 +43,14 @@ namespace nmtools::utl
         constexpr reference at(index_type i)
         {
             // TODO: assert/throw
+            NMTOOLS_VERIF_BOUNDS(1,i,N);
             return buffer[i];
         }
 
         constexpr const_reference at(index_type i) const
         {
             // TODO: assert/throw
+            NMTOOLS_VERIF_BOUNDS(1,i,N);
             return buffer[i];
         }
 
@@ -70,11 +73,13 @@ namespace nmtools::utl
 
         constexpr reference operator[](index_type i) noexcept
         {
+            NMTOOLS_VERIF_BOUNDS(1,i,N);
             return buffer[i];
         }
 
         constexpr const_reference operator[](index_type i) const noexcept
         {
+            NMTOOLS_VERIF_BOUNDS(1,i,N);
             return buffer[i];
         }
 
